@@ -460,3 +460,132 @@ package evaluator
 //@ func padLengthError.Is
 //@   tags C08
 //@   ensures result == (target == global("evaluator.ErrInvalidValue"))
+
+// ---------------------------------------------------------------------------
+// safety of the tree walk (C03): nodes are never nil (established by the parser's type invariants)
+
+//@ func evaluator.evaluate
+//@   tags C03 C06 C09
+//@   requires node.nonnil: node != nil
+//@   loop 4
+//@     invariant true
+//@   loop 5
+//@     invariant len(results) == len(node.Fields) && fresh(results)
+//@   loop 6
+//@     invariant len(results) == len(node.Fields) && fresh(results)
+//@   loop 7
+//@     invariant fresh(results) && results != nil
+//@   loop 8
+//@     invariant fresh(results) && results != nil
+//@   loop 9
+//@     invariant len(values) == len(node.Arguments) && fresh(values) && 0 <= count && (iter >= 1 ==> count <= MaxAlloc)
+//@     invariant forall k Int :: 0 <= k && k < iter ==> count <= len(values[k])
+//@   loop 10
+//@     invariant 0 <= i && i <= count && len(results) == count && fresh(results) && len(values) == len(node.Arguments) && fresh(values)
+//@     invariant forall k Int :: 0 <= k && k < len(values) ==> count <= len(values[k])
+//@   loop 11
+//@     invariant 0 <= i && i < count && len(results) == count && fresh(results) && len(result) == len(values) && fresh(result) && len(values) == len(node.Arguments) && fresh(values)
+//@     invariant forall k Int :: 0 <= k && k < len(values) ==> count <= len(values[k])
+
+//@ func Evaluate
+//@   tags C03 C06
+//@   requires node != nil
+//@   ensures result1 != nil ==> result0 == nil
+
+//@ func evaluator.projectArray
+//@   requires node != nil
+//@ func evaluator.filter
+//@   requires node != nil
+//@ func evaluator.filterAndProjectArray
+//@   requires filter != nil && node != nil
+//@ func evaluator.mapArray
+//@   requires node != nil
+//@ func evaluator.flattenAndProjectArray
+//@   tags C03 C06 C01
+//@   requires node != nil
+//@   ensures nonarray: !isArr(value) ==> result == nil && err == nil
+//@   ensures failure: err != nil ==> result == nil
+//@   ensures kind: isArr(value) && err == nil ==> isArr(result) && fresh(arr(result))
+//@   loop 1
+//@     invariant fresh(r)
+//@   loop 2
+//@     invariant fresh(r)
+//@ func evaluator.projectObject
+//@   tags C03 C06 C01 C15
+//@   requires node != nil
+//@   ensures nonobject: !isObj(value) ==> result == nil && err == nil
+//@   ensures failure: err != nil ==> result == nil
+//@   ensures kind: isObj(value) && err == nil ==> isArr(result) && fresh(arr(result))
+//@   ensures[C01] nonnull: isObj(value) && err == nil ==> (forall k Int :: 0 <= k && k < len(arr(result)) ==> arr(result)[k] != nil)
+//@   loop 1
+//@     invariant fresh(r) && (forall k Int :: 0 <= k && k < len(r) ==> r[k] != nil)
+//@ func evaluator.groupBy
+//@   tags C03 C06 C02
+//@   requires node != nil
+//@   ensures failure: err != nil ==> result == nil
+//@   loop 1
+//@     invariant fresh(r) && r != nil && (forall k Int :: hasKey(r, k) ==> isArr(getKey(r, k)) && fresh(arr(getKey(r, k))))
+//@ func evaluator.sortArrayBy
+//@   tags C03 C06 C13
+//@   requires node != nil
+//@ func evaluator.arrayMaxBy
+//@   tags C03 C06 C13
+//@   requires node != nil
+//@   loop 1
+//@     invariant 0 <= index && index < len(a) && len(a) >= 1
+//@   loop 2
+//@     invariant 0 <= index && index < len(a) && len(a) >= 1
+//@ func evaluator.arrayMinBy
+//@   tags C03 C06 C13
+//@   requires node != nil
+//@   loop 1
+//@     invariant 0 <= index && index < len(a) && len(a) >= 1
+//@   loop 2
+//@     invariant 0 <= index && index < len(a) && len(a) >= 1
+
+// object enumerations: the i-th slot is filled in the i-th iteration (C03, C15)
+//@ func items
+//@   tags C03 C06 C15 C02
+//@   loop 1
+//@     invariant i == it_n && len(r) == len(m) && fresh(r)
+//@ func keys
+//@   tags C03 C06 C15 C02
+//@   loop 1
+//@     invariant i == it_n && len(r) == len(m) && fresh(r)
+//@ func values
+//@   tags C03 C06 C15 C02
+//@   loop 1
+//@     invariant i == it_n && len(r) == len(m) && fresh(r)
+//@ func objectValues
+//@   tags C03 C06 C15 C01
+//@   loop 1
+//@     invariant i == it_n && len(r) == len(m) && fresh(r)
+
+//@ func reverse
+//@   tags C03 C06 C11 C09
+//@   loop 1
+//@     invariant bldOk(b) && subwindow(s, str(v0))
+//@     decreases len(s)
+//@     bound len(str(v0))
+//@   loop 2
+//@     invariant 0 <= i && i <= l && j == l - 1 - i && len(r) == l && l == len(a) && fresh(r)
+//@     decreases l - i
+//@     bound len(arr(v0))
+
+// sort.Interface methods are called by package sort with indices in range (assumed contract of sort.Sort)
+//@ func sortByNumber.Less
+//@   tags C03 C13
+//@   requires 0 <= i && i < len(s.by) && 0 <= j && j < len(s.by)
+//@ func sortByNumber.Swap
+//@   tags C03 C13 C06
+//@   requires 0 <= i && i < len(s.by) && 0 <= j && j < len(s.by) && len(s.items) == len(s.by)
+//@ func sortByString.Less
+//@   tags C03 C13
+//@   requires 0 <= i && i < len(s.by) && 0 <= j && j < len(s.by)
+//@ func sortByString.Swap
+//@   tags C03 C13 C06
+//@   requires 0 <= i && i < len(s.by) && 0 <= j && j < len(s.by) && len(s.items) == len(s.by)
+
+// errors can be formatted (C03): struct invariants established where the error is built
+//@ typeinv stringConversionError: self.err != nil
+//@ typeinv unexpectedOperationError: self.op != nil
